@@ -85,6 +85,9 @@ Definition pc_kind (p : pc) : ekind :=
 
 Definition store_of (l : list (key * kstate)) : key -> kstate := fun k => lookup k_empty k l.
 
+(* how many sequencer iterations the check lets happen after a step (the sequencer runs freely) *)
+Definition seq_fuel : nat := 1024.
+
 Fixpoint run_steps (cidx0 : bool) (s : state) (queues : list (tid * list req)) (prev : N) (steps : list sstep)
   : option (state * list (tid * list req)) :=
   match steps with
@@ -93,7 +96,7 @@ Fixpoint run_steps (cidx0 : bool) (s : state) (queues : list (tid * list req)) (
       let t := st_t st in
       if ekind_eqb (st_kind st) KHold then
         (* the commit is held inside the engine: the model thread still stands before its commit *)
-        let s2 := seq_all cidx0 64 s in
+        let s2 := seq_all cidx0 seq_fuel s in
         if is_commit_pc (thr s t) && env_eqb (st_env st) EnvOk
            && (match st_resps st with [] => true | _ => false end)
            && (prev <=? st_sample st) && (st_sample st <=? committed (rs s2))
@@ -101,7 +104,7 @@ Fixpoint run_steps (cidx0 : bool) (s : state) (queues : list (tid * list req)) (
         else None
       else
       let '(s1, qu, resps, _) := resume cidx0 s t (st_env st) (lookup [] t queues) in
-      let s2 := seq_all cidx0 64 s1 in
+      let s2 := seq_all cidx0 seq_fuel s1 in
       if ekind_eqb (pc_kind (thr s t)) (st_kind st)
          && (match st_env st with EnvOk => true | e => enabled s (LEngine t e) end)
          && list_eqb resp_eqb resps (st_resps st)
